@@ -40,9 +40,9 @@ MODULES = {
     "C17": ["structure/bonds.c"],
     "C19": ["sequence/phylo/tree.c", "sequence/phylo/upgma.c", "sequence/phylo/nj.c"],
 }
-MARK = re.compile(r'^\s*/\* "(biotite/[^"]+\.pyx)":(\d+)\s*$')
+MARK = re.compile(r'^\s*/\* "([^"]+)":(\d+)\s*$')
 CMP = re.compile(r'(__pyx_v_[A-Za-z0-9_>.\-\[\]]*?[A-Za-z0-9_\]])\s(<=|>=|==|!=|<|>)\s(\(?-?[A-Za-z0-9_(][^;&|]*)')
-PM1 = re.compile(r'(__pyx_v_[A-Za-z0-9_]+)\s([+-])\s1\b')
+PM1 = re.compile(r'(__pyx_v_[A-Za-z0-9_]+|\d+)\s([+-])\s(?=(?:\d+|\(?__pyx_v_[A-Za-z0-9_]+))')
 SWAP = {"<": "<=", "<=": "<", ">": ">=", ">=": ">", "==": "!=", "!=": "=="}
 NOISE = ("unlikely(", "PyErr", "__PYX_ERR", "NULL", "Py_None", "__Pyx_", "goto ", "PyObject", "__pyx_L", "memview", "->data", "strides", "suboffsets",
          "__pyx_v_kind", "__pyx_v_itemsize", "__pyx_v_dtype", "__pyx_v_self->ndim", "__pyx_v_self->_shape", "__pyx_v_arg_", "__pyx_v_dest_sig", "__pyx_v_candidates",
@@ -63,7 +63,8 @@ def blocks_of(path):
         while j < len(lines) and "*/" not in lines[j]:
             j += 1
         end = marks[k + 1][0] if k + 1 < len(marks) else len(lines)
-        out.append((pyx, ln, j + 1, end))
+        if pyx.startswith("biotite/") and pyx.endswith(".pyx"):      # blocks of View.MemoryView etc. only delimit
+            out.append((pyx, ln, j + 1, end))
     return lines, out
 
 
